@@ -25,7 +25,7 @@ CL, CM, CH = 0.845, 0.0856, 0.204
 
 
 def cases(tier, seed):
-    n = 640 if tier == "quick" else 51200
+    n = 640 if tier == "quick" else 102400
     out = [{"seed": seed, "idx": i, "kind": "profiles"} for i in range(n)]
     out += [{"seed": seed, "idx": i, "kind": "stability"} for i in range(16 if tier == "quick" else 64)]
     out_ = out
